@@ -8,7 +8,7 @@ the harness itself (mc/c20_helpers.py)."""
 import math
 import warnings
 
-from mc.run import Res, item_from_record, HarnessError, digest
+from mc.run import Res, item_from_record, HarnessError, digest, KNOWN
 from mc import c20_helpers as H
 
 ID = 'C20'
@@ -376,6 +376,19 @@ def gw_semantics(item, dom, au, r):
     return len(live) >= 2 and (special or blocked)
 
 
+def state_bound(item):
+    """Generous bound on the number of reachable states the layout can support (cells x hidden
+    configurations x 4): a BFS that exceeds it has left the layout and is cut off."""
+    dom, rows, prm = item
+    if rows:
+        return 8 * (len(rows) * len(rows[0]) + 2)
+    if dom == 'loadunload':
+        return 8 * (prm[0] + 2)
+    if dom == 'cliff':
+        return 8 * 50
+    return 64
+
+
 def layout_bounds(item, au, r):
     """A model is not well-formed if it puts the agent at a position that its layout does not have
     (windy / cliff / heaven-or-hell: a cell of the rectangular layout; load-unload: 0 <= location <
@@ -446,7 +459,8 @@ def check(item, tier):
         r.count('instances')
         r.count('instances:' + dom)
         discount = float(obj.discount_rate)
-        au = H.audit(obj, pomdp=pomdp, plan=True, vi_cap=(3000 if discount >= 1 else None))
+        au = H.audit(obj, pomdp=pomdp, plan=True, vi_cap=(3000 if discount >= 1 else None),
+                     max_states=state_bound(item))
         r.count('states', au.n_states)
         r.count('transitions', au.n_edges)
         r.count('state_action_pairs', au.n_sa)
@@ -464,9 +478,10 @@ def check(item, tier):
             if cls is None:
                 cls = InputClass(item)
             f = cls.finding_for(pr, au)
-            k = (pr.kind, f)
+            listed = f is not None and f in KNOWN
+            k = f if listed else (pr.kind, f)       # a listed finding is counted once per input
             seen_kinds[k] = seen_kinds.get(k, 0) + 1
-            if seen_kinds[k] > 2:
+            if seen_kinds[k] > (1 if listed else 2):
                 continue
             r.violation(pr.kind, pr.detail, item, finding=f)
         layout_bounds(item, au, r)
